@@ -521,6 +521,35 @@ theorem metroStep1_zero_plateau (u01 : U01 G) (hu : Unit01 u01) (cand : G → Ra
     simp only [sampleUniform]; linarith
   simp only [if_neg hnot, accProb, hx, if_true, if_neg (not_lt.mpr hc), if_pos hu1]
 
+/-! ## An acceptance probability of 0 never accepts - for every uniform deviate including exactly 0 (seed C18-p) -/
+
+/-- `u < 0` is false for every deviate of `[0,1)`, in particular for `u = 0`: the test must be the strict `u < a`
+    (`a ≥ u` would accept at `a = u = 0`) -/
+theorem zero_probability_never_accepts (u : Rat) (hu : 0 ≤ u) : acceptD u (.fin 0) = false ∧ ¬ (u < 0) := by
+  constructor
+  · simp [acceptD, not_lt.mpr hu]
+  · exact not_lt.mpr hu
+
+/-- the step of the model leaves the chain where it is when the proposal is outside the bounded domain, for EVERY uniform
+    source with values in `[0,1)` - also one that returns exactly 0 at the accept/reject draw -/
+theorem metroStep1_outside_rejects (u01 : U01 G) (hu : Unit01 u01) (cand : G → Rat → Rat × G) (pdf : Rat → Rat)
+    (lo hi x : Rat) (g : G) (hout : (cand g x).1 < lo ∨ (cand g x).1 > hi) :
+    (metroStep1 u01 cand pdf (some (lo, hi)) x g).1 = x := by
+  simp only [metroStep1]
+  have hu0 : 0 ≤ (sampleUniform u01 (cand g x).2 0 1).1 := (sampleUniform_inside u01 hu _ 0 1 (by norm_num)).1
+  simp only [if_pos hout, if_neg (not_lt.mpr hu0)]
+
+/-- the source that always returns exactly 0 is admissible (`0 ∈ [0,1)`), and the non-strict test would accept there -/
+example : Unit01 (G := Nat) (fun n => (0, n + 1)) ∧ ((0 : Rat) ≥ 0) := ⟨fun _ => ⟨le_refl _, by norm_num⟩, le_refl _⟩
+
+theorem metroStep2_outside_rejects (u01 : U01 G) (hu : Unit01 u01) (cand : G → Rat × Rat → (Rat × Rat) × G) (pdf : Rat → Rat → Rat)
+    (d : Dom2) (x : Rat × Rat) (g : G)
+    (hout : (cand g x).1.1 < d.x0 ∨ (cand g x).1.1 > d.x1 ∨ (cand g x).1.2 < d.y0 ∨ (cand g x).1.2 > d.y1) :
+    (metroStep2 u01 cand pdf (some d) x g).1 = x := by
+  simp only [metroStep2]
+  have hu0 : 0 ≤ (sampleUniform u01 (cand g x).2 0 1).1 := (sampleUniform_inside u01 hu _ 0 1 (by norm_num)).1
+  simp only [if_pos hout, if_neg (not_lt.mpr hu0)]
+
 /-! ## Parameter guards (fix d65f15f): which requests stop with a diagnostic, and that nothing else changed -/
 
 theorem sampleUniformG_error_iff (u01 : U01 G) (g : G) (a b : Rat) :
